@@ -433,6 +433,9 @@ func loadHVtmx(hheaRaw, htmxRaw []byte, numGlyphs int) (*tables.Hhea, tables.Hmt
 		return nil, tables.Hmtx{}, err
 	}
 
+	if int(hhea.NumOfLongMetrics) > numGlyphs {
+		return nil, tables.Hmtx{}, errors.New("invalid metrics table: more metrics than glyphs")
+	}
 	hmtx, _, err := tables.ParseHmtx(htmxRaw, int(hhea.NumOfLongMetrics), numGlyphs-int(hhea.NumOfLongMetrics))
 	if err != nil {
 		return nil, tables.Hmtx{}, err
